@@ -5,8 +5,8 @@
    start word: it may be None, empty, rejected, unreadable (falling off a partial DFA, or containing
    symbols outside the alphabet), or longer than max_length. *)
 From Coq Require Import List Arith Bool Sorted.
-From AV Require Import Base.Util Spec.Lang Spec.FA Spec.DictOrder Model.Product Model.Succ
-                       Proofs.Finite Proofs.Succ.
+From AV Require Import Base.Util Spec.Lang Spec.FA Spec.DictOrder Model.Product Model.Succ Model.SuccMachine
+                       Proofs.Finite Proofs.Succ Proofs.SuccMachine.
 Import ListNotations.
 
 (* the order the property talks about is a decidable strict total order in which a proper prefix
@@ -139,6 +139,20 @@ Theorem C14_isfinite_exact : forall m, valid_dfa m = true ->
 Proof. exact isfinite_spec. Qed.
 Print Assumptions C14_isfinite_exact.
 
+(* T2, forward direction: the mirror model of the explicit stack machine of DFA.successors
+   (Model/SuccMachine.v: state stack, char stack, candidate, should_yield; the yield point, the
+   descend / next-sibling / return-to-parent branches, pruning by co-accessibility and max_length)
+   generates exactly the specified list whenever it returns, for every fuel.  The start word must be
+   over the alphabet (a foreign symbol is the open finding successor_start_has_foreign_symbol). *)
+Theorem C14_machine_refines_successors : forall fuel m start strict lo ohi l,
+  valid_dfa m = true ->
+  (ohi = None -> finite_lang (L_dfa m)) ->
+  (forall s, start = Some s -> Forall (fun a => In a (d_syms m)) s) ->
+  succ_machine fuel m start strict false lo ohi = Ok l ->
+  l = succ_list m start strict lo (the_hi m ohi).
+Proof. exact machine_forward_correct. Qed.
+Print Assumptions C14_machine_refines_successors.
+
 (* ---- non-vacuity ---- *)
 (* partial DFA over {0,1}: 0 -0-> 1, 0 -1-> 2, 1 -1-> 2; finals {0,2}: L = {e, 1, 01} *)
 Definition ex_fin : dfa := mkdfa [0;1;2] [0;1] [(0,[(0,1);(1,2)]);(1,[(1,2)]);(2,[])] 0 [0;2] true.
@@ -164,7 +178,11 @@ Example C14_example_lists :
   successor_m ex_inf (Some [0]) true 0 (Some 5) = Ok (Some [0;0]) /\
   pred_m ex_inf (Some [0]) true 0 (Some 5) = Err Infinite /\
   predecessor_m ex_inf None false 0 None = Err Infinite /\
-  isfinite_m ex_fin = Ok true /\ isfinite_m ex_inf = Ok false.
+  isfinite_m ex_fin = Ok true /\ isfinite_m ex_inf = Ok false /\
+  succ_machine (machine_fuel ex_fin (Some [0]) None) ex_fin (Some [0]) true false 0 None = Ok [[0;1]; [1]] /\
+  succ_machine (machine_fuel ex_inf (Some [0]) (Some 5)) ex_inf (Some [0]) false false 0 (Some 5) = Ok [[0;0]; [0;0;0;0]] /\
+  succ_machine (machine_fuel ex_fin (Some [1]) None) ex_fin (Some [1]) true true 0 None = Ok [[0;1]; []] /\
+  succ_machine 5 ex_fin None true false 0 None = Err Fuel.
 Proof. vm_compute. repeat split. Qed.
 
 Example C14_example_hypotheses : finite_lang (L_dfa ex_fin) /\ infinite_lang (L_dfa ex_inf).
